@@ -3,4 +3,5 @@ Each module exposes run_stage(rep): it adds its TLC runs, traces, evaluations an
 same Report; it must be quick (a few tens of seconds) in the quick tier."""
 EXTRAS = {
     "C02": ["h2probe"],
+    "C05": ["redirmeta"],
 }
